@@ -11,6 +11,10 @@ CHECKS = {
          "value assembled from unconstrained symbolic ints/bools/floats, bounded symbolic strs and symbolic container lengths; "
          "'closed' means z3 decided every path of that bounded space. Realised scalars (temporals, Decimal, UUID...) come from "
          "pick-lists selected by a symbolic index.", "4/C01", "CrossHair symbolic execution of the real routines, z3 path exhaustion, native replay"),
+ "C03": ("E1 value-symbolic: the input is an arbitrary object - family J (None|bool|int|float|str|list|dict to a depth bound, plus "
+         "instances of unrelated classes) and family W (the wire form of a symbolic valid value with one symbolic corruption); the "
+         "oracle is an independent structural conformance checker (vlib/shapes.py); leaves are narrow because the routines "
+         "stringify / realise them.", "4/C03", "CrossHair symbolic execution of the real unmarshallers on arbitrary inputs, z3 path exhaustion, native replay"),
 }
 NA = {
  "C17": "flat catalogue of CPython type objects compared with CPython's own issubclass/typing internals: neither side can be encoded for a solver and there is no value, shape, state or history to make symbolic (DESIGN.md section 7)",
